@@ -57,6 +57,13 @@ def check(ctx):
     r20_4_guard(ctx, f, rec, st, out, table)
     r20_5(ctx, f, rec, st, region, out, handle)
     r20_6(ctx, f, handle)
+    r20_7(ctx, f, table)
+    # "optional fields are those of the input": the parser's acceptance of the tag grammar is shared with C16
+    from . import c16
+
+    info16 = tag_regex_info(pf, loop, "R16.1")
+    c16.r16_1(ctx, pf, loop, info16)
+    c16.r16_2(ctx, pf, loop)
     ctx.not_decided.append("nothing of C20 beyond the TSV being tab-separated with columns read, haplotype, phase set, contig")
 
 
@@ -370,3 +377,22 @@ def r20_6(ctx, f, handle):
     closes = [s for s in walk_stmts(f.node.body) if isinstance(s, ast.Expr) and norm(s.value) == f"{handle}.close()"]
     okc = all(any(canon_test(t, pol) == (f"{handle} is sys.stdout", False) for t, pol in guards_of(f.node, c)) for c in closes)
     ctx.check(okc, "R20.6", f.where(), "standard output is not closed by the command", key_of(f, "stdout-close"))
+
+
+def r20_7(ctx, f, table):
+    """Every TSV row is seen by the table-building loop: the TSV handle is read by that loop only."""
+    loops = [l for l in walk_own(f.node) if isinstance(l, ast.For) and any(x is table.store for x in ast.walk(l))]
+    if not loops:
+        raise AnalysisError("R20.7", f.where(), "the per-read table is not filled in a loop over the TSV")
+    l = loops[-1]
+    h = norm(l.iter)
+    opened = [s for s in walk_own(f.node) if isinstance(s, ast.Assign) and norm(s.targets[0]) == h and isinstance(s.value, ast.Call) and norm(s.value.func) == "open"]
+    others = []
+    for c in walk_own(f.node):
+        if isinstance(c, ast.Call):
+            if isinstance(c.func, ast.Name) and c.func.id in ("next", "list", "iter", "enumerate") and c.args and norm(c.args[0]) == h and not any(x is c for x in ast.walk(l.iter)):
+                others.append(norm(c))
+            if isinstance(c.func, ast.Attribute) and norm(c.func.value) == h and c.func.attr in ("readline", "readlines", "read", "seek", "__next__"):
+                others.append(norm(c))
+    skips = [s for s in l.body if isinstance(s, ast.If) and any(isinstance(x, ast.Continue) for x in ast.walk(s))]
+    ctx.check(bool(opened) and not others and not skips, "R20.7", f.where(l), "every row of the haplotag TSV reaches the per-read table: the TSV handle is consumed by the table loop only, and the loop skips no row", key_of(f, f"tsv-consumers:{others}:{len(skips)}"), other_reads=others)
